@@ -687,3 +687,11 @@ B("C18", BASE, _OLD_DG, '        if key.startswith("___"):\n            return s
 B("C19", BASE, "                ~base_recs.isin(self.recordings).all(axis=1)\n            ]\n            self._update_view()", "                ~base_recs.isin(self.recordings).all(axis=1)\n            ]", "R-C19-refresh")
 B("C19", BASE, "                    base_exts_inds[state_name] = base_exts_inds[state_name][keep_inds]\n                self._update_view()", "                    base_exts_inds[state_name] = base_exts_inds[state_name][keep_inds]", "R-C19-refresh")
 P("C19", BASE, "                    base_exts_inds[state_name] = base_exts_inds[state_name][keep_inds]\n                self._update_view()\n            else:\n                pass  # does not have to be deleted if not in externals", "                    base_exts_inds[state_name] = base_exts_inds[state_name][keep_inds]\n        self._update_view()")
+# augmented assignment on a whole array
+for _p, _r in (("C01", "R-C01-assembly"), ("C02", "R-C02-rowsum")):
+    P(_p, SV, "    branchpoint_conds_parents = -delta_t * branchpoint_conds_parents", "    branchpoint_conds_parents *= -delta_t")
+    B(_p, SV, "    branchpoint_conds_parents = -delta_t * branchpoint_conds_parents", "    branchpoint_conds_parents *= delta_t", _r)
+# signed voltage difference in other spellings
+_OLD_AX = "    vecfield = vecfield.at[:, :-1].add((voltages[:, 1:] - voltages[:, :-1]) * uppers)\n    vecfield = vecfield.at[:, 1:].add((voltages[:, :-1] - voltages[:, 1:]) * lowers)"
+P("C01", SV, _OLD_AX, "    dv = voltages[:, 1:] - voltages[:, :-1]\n    vecfield = vecfield.at[:, :-1].add(dv * uppers)\n    vecfield = vecfield.at[:, 1:].add(-dv * lowers)")
+B("C01", SV, _OLD_AX, "    dv = voltages[:, 1:] - voltages[:, :-1]\n    vecfield = vecfield.at[:, :-1].add(dv * uppers)\n    vecfield = vecfield.at[:, 1:].add(dv * lowers)", "R-C01-explicit")
